@@ -13,6 +13,7 @@ type corpusCase struct {
 	cmds  []cmdSpec
 	fails map[int]bool
 	wf    bool
+	dra   *draSpec // DRA devices and claims of the world (nil: none)
 }
 
 func node(name string, gpus int64) core.NodeSpec {
@@ -249,5 +250,16 @@ func corpus() []corpusCase {
 			cmds: []cmdSpec{{Kind: "evict", Pod: "a-0"}, {Kind: "checkpoint"}, {Kind: "evict", Pod: "b-0"}, {Kind: "pipeline", Pod: "c-0", Node: "n1"},
 				{Kind: "pipeline", Pod: "a-0", Node: "n1", HasGroups: true, Groups: []string{"n1-G1"}}, {Kind: "checkpoint"},
 				{Kind: "pipeline", Pod: "b-0", Node: "n2"}, {Kind: "rollback", Cp: -2}, {Kind: "rollback", Cp: -1}, {Kind: "commit"}}},
+		// queue usage is a float64 sum: a placement of a pod whose GPU portion is not a binary fraction (0.3; a gpu-memory
+		// request of 82173 MiB on 81900 MiB devices = 1.01) that is abandoned leaves 2 + x - x = 1.9999999999999998 GPUs
+		// in the queue and Session.QueueAllocatedResources reports 1 (finding C13-queue-usage-float-drift, flag 3)
+		{name: "Q1-fraction-0.3-allocate-discard-queue-usage-float-drift", wf: true,
+			c: base(n1, job1("a", whole(run, "n1", 1)), job1("b", whole(run, "n1", 1)), job1("f", core.PodSpec{Fraction: "0.3", Status: pend})),
+			cmds: []cmdSpec{{Kind: "allocate", Pod: "f-0", Node: "n1", HasGroups: true, Groups: []string{"x1"}}, {Kind: "discard"},
+				{Kind: "checkpoint"}, {Kind: "pipeline", Pod: "f-0", Node: "n1", HasGroups: true, Groups: []string{"x1"}}, {Kind: "rollback", Cp: -1}}},
+		{name: "Q2-gpu-memory-above-one-device-allocate-discard-queue-usage-float-drift", wf: true,
+			c: base([]core.NodeSpec{{Name: "n1", Cpu: 16000, Mem: 64 << 30, Gpus: 4, Pods: 110, GpuMem: 81900}},
+				job1("a", whole(run, "n1", 1)), job1("b", whole(run, "n1", 1)), job1("m", core.PodSpec{GpuMemory: 82173, Status: pend})),
+			cmds: []cmdSpec{{Kind: "allocate", Pod: "m-0", Node: "n1", HasGroups: true, Groups: []string{"x1"}}, {Kind: "discard"}}},
 	}...)
 }
